@@ -1,4 +1,4 @@
-// CONFIGS: back back_ct back11 backmp11 backmp11_ct
+// CONFIGS: back back_ct back11 backmp11 backmp11_ct backmp11_fpa
 // family `sel` (C01 C06 C07 C13): conflicting rows, submachine with two regions + internal table, outer rows on the submachine.
 // Oracle written from the statements of C01/C06/C07: guards are evaluated in priority order, each at most once, the first
 // enabled candidate is the only one taken per level, nothing of an outer level is evaluated after an inner level consumed,
